@@ -93,6 +93,16 @@ class RunResult:
         self.rc, self.out, self.err, self.timed_out, self.wall = rc, out, err, timed_out, wall
 
 
+def _proc_cpu_seconds(pid):
+    """user+system CPU seconds of a live process (all its threads), or None"""
+    try:
+        f = open("/proc/%d/stat" % pid).read()
+        rest = f[f.rindex(")") + 2:].split()
+        return (int(rest[11]) + int(rest[12])) / float(os.sysconf("SC_CLK_TCK"))
+    except (OSError, ValueError, IndexError):
+        return None
+
+
 def run(cmd, timeout=120, env=None, cwd=None, stdin=None):
     """Run cmd in its own process group; on timeout kill the whole group."""
     e = dict(os.environ)
@@ -108,6 +118,7 @@ def run(cmd, timeout=120, env=None, cwd=None, stdin=None):
                          time.time() - t0)
     except subprocess.TimeoutExpired:
         out, err = b"", b""
+        cpu = _proc_cpu_seconds(p.pid)
         for sig, wait in ((signal.SIGTERM, 3), (signal.SIGKILL, 10)):
             try:
                 os.killpg(p.pid, sig)
@@ -118,7 +129,9 @@ def run(cmd, timeout=120, env=None, cwd=None, stdin=None):
                 break
             except Exception:
                 continue
-        return RunResult(-9, out.decode("utf-8", "replace"), err.decode("utf-8", "replace"), True, time.time() - t0)
+        rr = RunResult(-9, out.decode("utf-8", "replace"), err.decode("utf-8", "replace"), True, time.time() - t0)
+        rr.cpu_s = cpu  # CPU seconds the process had consumed when the watchdog fired (None if unknown)
+        return rr
 
 
 def pmap(fn, items, workers=None):
